@@ -295,6 +295,33 @@ class Interp:
         self.text_sites = {}  # (fn path, bb) -> rules of the pair whose text (as_str / as_span) is read there
         self.pratt_ops = self._pratt_ops()
         self.analysed_fns = set()
+        self._bodies = {}
+
+    # --- bodies: helper functions of the parser are inlined (context-sensitive, generic helpers instantiated) ----
+    @staticmethod
+    def _inline_policy(t, callee):
+        if callee["crate"] != "tx3_lang" or callee.get("impl_trait") or callee.get("trait_default"):
+            return False
+        if len(callee["blocks"]) > 150:
+            return False
+        tys = callee["locals"][1:1 + callee["argc"]]
+        pairish = any("pest::iterators::Pair" in ty or "Pair<" in ty for ty in tys)
+        generic = any(not n.startswith("'") for n in (callee.get("generics") or []))
+        return pairish or generic
+
+    def _body(self, p):
+        if p not in self._bodies:
+            f = self.F.fns.get(p)
+            self._bodies[p] = mir.inline_calls(self.F, f, want=Interp._inline_policy, depth=3) if f is not None else None
+        return self._bodies[p]
+
+    def _k(self, f, bi):
+        """key of a block for the recorded facts: blocks of an inlined helper are recorded under the helper's own path and
+        block number (facts from all contexts are joined there)"""
+        b = f["blocks"][bi]
+        if b.get("inl") and "inl_bb" in b:
+            return (b["inl"], b["inl_bb"])
+        return (f["path"], bi)
 
     # --- the operator table registered in DATA_EXPR_PRATT_PARSER ---------------------------------
     def _pratt_ops(self):
@@ -415,7 +442,7 @@ class Interp:
             n += 1
             if n > 20000:
                 raise BrokenCheck("grammar flow did not converge")
-            f = self.F.fns.get(p)
+            f = self._body(p)
             if f is None:
                 continue
             self._analyse(f)
@@ -465,7 +492,12 @@ class Interp:
             iters += 1
             if iters > 5000:
                 raise BrokenCheck("grammar flow did not converge in " + path)
-            reached.add(bi)
+            kp, kb = self._k(f, bi)
+            if kp == path:
+                reached.add(bi)
+            else:
+                self.reached.setdefault(kp, set()).add(kb)
+                self.analysed_fns.add(kp)
             st = dict(instate[bi])
             b = blocks[bi]
             for s in b["s"]:
@@ -549,7 +581,7 @@ class Interp:
                                     st2[pl_local] = (PAIRS, G.step_sym(before, name))
                         outs.append((tb, st2))
                 rest = R - handled
-                info = self.switches.setdefault((path, bi), {"handled": set(), "incoming": set(), "otherwise_live": False})
+                info = self.switches.setdefault(self._k(f, bi), {"handled": set(), "incoming": set(), "otherwise_live": False})
                 info["handled"] |= handled
                 info["incoming"] |= R
                 if rest:
@@ -611,7 +643,7 @@ class Interp:
                 res = (PAIRS, G.start_of(a0[1]))
         elif callee in ("pest::iterators::Pair::<'i, R>::as_str", "pest::iterators::Pair::<'i, R>::as_span"):
             if a0 is not None and a0[0] == PAIR:
-                self.text_sites.setdefault((path, bi), set()).update(a0[1])
+                self.text_sites.setdefault(self._k(f, bi), set()).update(a0[1])
         elif callee == "pest::iterators::Pair::<'i, R>::as_rule":
             if a0 is not None and a0[0] == PAIR:
                 pl = mir.op_place(args[0])
@@ -634,7 +666,7 @@ class Interp:
                 res = (OPT, G.first(a0[1]), G.nullable(a0[1]), ("peek", base, (path, bi)))
         elif callee in ("std::option::Option::<T>::unwrap", "std::option::Option::<T>::expect"):
             if a0 is not None and a0[0] == OPT:
-                rec = self.unwrap.setdefault((path, bi), {"maybe_none": False, "rules": set()})
+                rec = self.unwrap.setdefault(self._k(f, bi), {"maybe_none": False, "rules": set()})
                 rec["maybe_none"] = rec["maybe_none"] or a0[2]
                 rec["rules"] |= set(a0[1])
                 res = (PAIR, a0[1], a0[3] if len(a0) > 3 else None)
@@ -686,7 +718,7 @@ class Interp:
                     per_rule[r] = (okr, reason_r)
                     if okr:
                         good_states |= set(Lr)
-                self.pratt[(path, bi)] = per_rule
+                self.pratt[self._k(f, bi)] = per_rule
                 Lgood = frozenset(good_states) & a1[1] if good_states else frozenset()
                 _, _, prim = G.pratt_shape(Lgood, ops["prefix"], ops["postfix"], ops["infix"])
                 alpha = G.alphabet(Lgood)
